@@ -564,6 +564,13 @@ def d7_corrfit(ctx):
     f = cm.func('Corr.fit')
     n_ = explicit_range_wins(ctx, rule, cm, 'Corr.fit', 'fitrange')
     ctx.floor('default range assignments in Corr.fit', n_, 1)
+    # the range is the caller's list or the stored prange: it is read, never updated in place
+    muts = [s_ for s_ in statements(f) if (isinstance(s_, ast.AugAssign) and isinstance(s_.target, ast.Subscript) and unparse(s_.target.value) in ('fitrange', 'self.prange'))
+            or (isinstance(s_, ast.Assign) and any(isinstance(t_, ast.Subscript) and unparse(t_.value) in ('fitrange', 'self.prange') for t_ in s_.targets))
+            or (isinstance(s_, ast.Expr) and isinstance(s_.value, ast.Call) and isinstance(s_.value.func, ast.Attribute) and unparse(s_.value.func.value) in ('fitrange', 'self.prange')
+                and s_.value.func.attr in ('append', 'extend', 'insert', 'pop', 'remove', 'reverse', 'sort', 'clear'))]
+    ctx.check(rule, 'correlators.py:Corr.fit#range-not-modified', not muts, 'the fit range is only read',
+              '`%s` changes the list of the caller (or the stored prange) in place: every later fit through the same list uses a different range' % (unparse(muts[0]) if muts else ''), cm.loc(muts[0]) if muts else None)
     xs, ys = find_def(f, 'xs'), find_def(f, 'ys')
     if len(xs) != 1 or len(ys) != 1:
         ctx.unrec(rule, 'correlators.py:Corr.fit#xs-ys', 'xs / ys definitions not found')
